@@ -167,13 +167,19 @@ def exclude_dynamic_elements(play):
 
     :raises PlaybookVerificationError:
     """
-    if 'insights_signature_exclude' not in play.get('vars', {}):
+    play_vars = play.get('vars', {})
+    if not isinstance(play_vars, dict) or 'insights_signature_exclude' not in play_vars:
         raise PlaybookVerificationError(
             "Play does not have the key 'vars/insights_signature_exclude', "
             "dynamic exclusion cannot be performed."
         )
+    if not isinstance(play_vars['insights_signature_exclude'], six.string_types):
+        raise PlaybookVerificationError(
+            "The value of 'vars/insights_signature_exclude' is not a string, "
+            "dynamic exclusion cannot be performed."
+        )
 
-    exclusions = play['vars']['insights_signature_exclude'].split(',')  # type: list[str]
+    exclusions = play_vars['insights_signature_exclude'].split(',')  # type: list[str]
     result = copy.deepcopy(play)  # type: dict[str, ...]
 
     for element in exclusions:
